@@ -147,7 +147,7 @@ struct World3 {
 
 static void p3(const Args& a, Counters& c) {
   if (a.shard != 2 % a.nshards) return;
-  g_ops3 = { {0, T0, "setNow(T1)"}, {0, T0 - 5, "setNow(T1-5)"}, {0, T0 + 5, "setNow(T1+5)"}, {0, T0 + 1, "setNow(T1+1)"}, {0, (int64_t)INT32_MIN, "setNow(sentinel)"},
+  g_ops3 = { {0, T0, "setNow(T1)"}, {0, T0 - 5, "setNow(T1-5)"}, {0, T0 + 5, "setNow(T1+5)"}, {0, T0 + 1, "setNow(T1+1)"}, {0, T0 + 65536, "setNow(T1+65536)"}, {0, T0 - 131072 + 5, "setNow(T1-131072+5)"}, {0, (int64_t)INT32_MIN, "setNow(sentinel)"},
              {1, 0, "advance 0 ms; getNow"}, {1, 1, "advance 1 ms; getNow"}, {1, 999, "advance 999 ms; getNow"}, {1, 1000, "advance 1000 ms; getNow"}, {1, 1001, "advance 1001 ms; getNow"},
              {1, 5000, "advance 5000 ms; getNow"}, {1, 64536, "advance 64536 ms; getNow"}, {2, 0, "getLastSyncTime/isInit"},
              {3, 500, "advance 500 ms (no read)"}, {3, 5000, "advance 5000 ms (no read)"} };
